@@ -207,6 +207,17 @@ fn check_race(w: &mut World, id: NodeId) {
             v(w, fam, id, format!("{} was polled after the winner had resolved", kp));
         }
     }
+    // the losers are dropped, unfinished, *together with* the race future
+    if let Some(db) = w.nodes[id].drop_begin {
+        for &k in &kids {
+            let n = &w.nodes[k];
+            if n.finished_at.is_none() && !n.panicked && matches!(n.dropped_at, Some(d) if d < db) {
+                let kp = w.path(k);
+                v(w, fam, id, format!("the losing child {} was dropped before the race future itself was dropped", kp));
+                break;
+            }
+        }
+    }
 }
 
 fn check_race_ok(w: &mut World, id: NodeId) {
